@@ -294,7 +294,7 @@ pub fn cli_worker(ctx: &mut Ctx) {
     let n = ctx.share(640, 16_000);
     let mut rng = ctx.rng("c13cli");
     let dialects = [(Dialect::American, "American"), (Dialect::British, "British"), (Dialect::Australian, "Australian"), (Dialect::Canadian, "Canadian")];
-    for _ in 0..n {
+    for k_case in 0..n {
         let seed = rng.next();
         let mut r = Rng(seed);
         let (fe, ext, open, close) = match r.below(6) {
@@ -327,7 +327,7 @@ pub fn cli_worker(ctx: &mut Ctx) {
         let text = format!("{open}{body}{close}");
         let rules: Vec<String> = match r.below(5) {
             0 | 1 => vec![],
-            2 | 3 => vec![if r.chance(2, 3) { r.pick_str(&self_overlapping).to_string() } else { r.pick(&all_rules).clone() }],
+            2 | 3 => vec![if r.chance(1, 2) { r.pick_str(&self_overlapping).to_string() } else if r.chance(1, 2) { r.pick_str(&["SpelledNumbers", "BoringWords", "LinkingVerbs", "UseGenitive", "NoOxfordComma"]).to_string() } else { r.pick(&all_rules).clone() }],
             _ => vec![r.pick_str(&self_overlapping).to_string(), r.pick(&all_rules).clone()],
         };
         let (dialect, dname) = *r.pick(&dialects);
@@ -400,6 +400,25 @@ pub fn cli_worker(ctx: &mut Ctx) {
         let bound = max_disjoint(all_spans.clone());
         if total > bound {
             ctx.report.finding("C13", "cli.reported-overlap-total", text.len(), wit, || format!("harper-cli prints {total} lints; the rules emit {:?}, of which at most {bound} are pairwise disjoint", all_spans));
+        }
+        // C11 at the command line: `--count` prints how many lints the selected rules produce (before overlap
+        // resolution); it must be the number the same selection produces in process
+        if k_case % 2 == 0 {
+            let mut cmd2 = std::process::Command::new(&cli);
+            cmd2.env("HOME", &dir).arg("lint").arg(&file).arg("--count").arg("--dialect").arg(dname).arg("--user-dict-path").arg(format!("{dir}/dict.txt")).arg("--file-dict-path").arg(format!("{dir}/fd"));
+            for k in &rules {
+                cmd2.arg("--only-lint-with").arg(k);
+            }
+            if let Ok(o2) = cmd2.output() {
+                let so = String::from_utf8_lossy(&o2.stdout).to_string();
+                if let Some(n) = so.lines().rev().find_map(|l| l.trim().parse::<usize>().ok()) {
+                    ctx.report.count("cli_counts_compared", 1);
+                    if n != raw.len() {
+                        let which = if rules.is_empty() { "curated".to_string() } else { format!("only-lint-with x{}", rules.len()) };
+                        ctx.report.finding("C11", &format!("cli.count@{which}"), text.len(), wit, || format!("harper-cli lint --count prints {n}; the same rule selection produces {} lints in process", raw.len()));
+                    }
+                }
+            }
         }
         if raw.len() > bound {
             ctx.report.nontrivial(fnv_mix(fnv(ext.as_bytes()), fnv_mix(rules.len() as u64, (raw.len() - bound) as u64)));
